@@ -55,6 +55,9 @@ def cleanup(d):
 _built = False
 
 
+_failed_bins = set()
+
+
 def build_harness(bins=None):
     """Rebuild the harness against /repo's current working tree."""
     global _built
@@ -65,18 +68,26 @@ def build_harness(bins=None):
         shutil.copy("/repo/Cargo.lock", lock)
     env = dict(os.environ)
     env["CARGO_NET_OFFLINE"] = "true"
-    cmd = ["cargo", "build", "--offline", "--bins"]
+    cmd = ["cargo", "build", "--offline", "--bins", "--keep-going"]
     t0 = time.time()
     # serialise concurrent checks on the same target dir: cargo does its own locking
     p = subprocess.run(cmd, cwd=HARNESS, env=env, stdout=subprocess.PIPE, stderr=subprocess.STDOUT, text=True)
     if p.returncode != 0:
-        sys.stdout.write(p.stdout[-6000:])
-        raise ToolError("harness build failed (does /repo still compile?)")
+        # one driver that does not compile must not take the other properties' checks down with it: remember
+        # which binaries failed; run_bin refuses to run exactly those (a stale binary is never used)
+        failed = set(re.findall(r'could not compile `verif_harness` \(bin "([^"]+)"\)', p.stdout))
+        if not failed or "(lib)" in p.stdout and "could not compile `verif_harness` (lib)" in p.stdout:
+            sys.stdout.write(p.stdout[-6000:])
+            raise ToolError("harness build failed (does /repo still compile?)")
+        _failed_bins.update(failed)
+        log(f"[build] WARNING: drivers that do not compile: {sorted(failed)}")
     log(f"[build] harness built in {time.time() - t0:.1f}s")
     _built = True
 
 
 def run_bin(name, args, timeout=1800, env=None, stdin=None, capture=True):
+    if name in _failed_bins:
+        raise ToolError(f"driver {name} does not compile against the current /repo tree")
     exe = os.path.join(BIN, name)
     e = dict(os.environ)
     if env:
